@@ -234,6 +234,8 @@ class RaggedArray(IndexableArray, np.lib.mixins.NDArrayOperatorsMixin):
         data = np.array(
             [element for array in array_list for element in array], dtype=dtype
         )  # This can be done faster
+        if dtype is None and data.size == 0 and len(array_list) and all(isinstance(a, np.ndarray) for a in array_list):
+            data = data.astype(np.result_type(*array_list))  # typed rows without elements still carry their element type
         return data, RaggedShape([len(a) for a in array_list])
 
         shape = RaggedShape([len(a) for a in array_list])
